@@ -6,7 +6,7 @@ ids = [p['id'] for p in props]
 
 CLAIMS = {
  "C18": dict(cat="other", ref="DESIGN.md section 4, C18",
-   text="EXPLICITLY WEAK: only necessary structural conditions, decided independently of the loop forms (helpers inlined with their loops; segments between loop heads classified by the successor they inspect) - both traversals compare only the key of cursor.fingers[index] after a nil test and advance iff it is less than the search key (siblings agree); the level loop begins a pass iff index >= 0, 'less' keeps the level, 'stop' lowers it by one, the cursor starts at the head, moves only to the inspected successor, the insertion path records the cursor once per level, the result is the level-0 successor; Put splices every level of the new node reading the successor before linking, a node's height never exceeds the list's levels, Remove's loop covers the node's levels and unlinks only where the path points to it; results under equal / not equal. The ordered-map behaviour over histories, the sorted-sublist invariant, independence from random heights and the printed form are NOT decided.",
+   text="EXPLICITLY WEAK: only necessary structural conditions, decided independently of the loop forms (helpers inlined with their loops; segments between loop heads classified by the successor they inspect) - both traversals compare only the key of cursor.fingers[index] after a nil test and advance iff it is less than the search key (siblings agree); the level loop begins a pass iff index >= 0, 'less' keeps the level, 'stop' lowers it by one, the cursor starts at the head, moves only to the inspected successor, the insertion path records the cursor once per level, the result is the level-0 successor; Put splices every level of the new node reading the successor before linking, a node's height never exceeds the list's levels, Remove's loop covers the node's levels and unlinks only where the path points to it; results under equal / not equal. The ordered-map behaviour over histories, the sorted-sublist invariant, independence from random heights and the printed form are NOT decided. A new node's height is at least 1 on every path (node-height-positive; defect D9 repaired by a fix: commit).",
    note="assumes the comparison trait is a total order; internal/maplike is staged into a temporary module (no module of the repository builds it)",
    tech="static analysis: path constraints and counted-loop bounds over SSA of the staged package"),
  "C19": dict(cat="other", ref="DESIGN.md section 4, C19",
@@ -28,11 +28,11 @@ CLAIMS = {
    note="trusted: go/types, go/ssa, path engine; no composite performs a store of its own except lensM (census from C01)",
    tech="static analysis: event-list equality of straight-line SSA paths against defining equations; type-level witnesses"),
  "C14": dict(cat="other", ref="DESIGN.md section 4, C14/C15",
-   text="Iterator protocol of every combinator of trait/seq as path constraints: nil-is-empty, eager positioning of constructors, Next protocols of takeWhile/filter/plus/join, map.Value, leaves, ForEach drain/first-error, user functions always fed the element the iterator is positioned on (phi-aware), no writes to source slices. List semantics at any nesting follows by induction on paper; the induction and user functions are not decided.",
+   text="Iterator protocol of every combinator of trait/seq as path constraints: nil-is-empty, eager positioning of constructors, Next protocols of takeWhile/filter/plus/join, map.Value, leaves, ForEach drain/first-error, user functions always fed the element the iterator is positioned on (phi-aware), no writes to source slices. List semantics at any nesting follows by induction on paper; the induction and user functions are not decided. typed-nil: no possibly-nil pointer is converted to the iterator interface (nil interface = empty).",
    note="assumes iterators are not aliased by their wrapper and are dead after Next returned false",
    tech="static analysis: path constraints with branch polarities over SSA, loop-carried value freshness, slice-write census"),
  "C15": dict(cat="other", ref="DESIGN.md section 4, C14/C15",
-   text="Same protocol rules for trait/pair (incl. ToSeq/FromSeq), plus key/value pairing: Key, Value, Next resolve through the same embedded iterator (method-set resolution), Key never redefined, two-argument user functions receive (X.Key(), X.Value()) of one iterator X read after X's last Next.",
+   text="Same protocol rules for trait/pair (incl. ToSeq/FromSeq), plus key/value pairing: Key, Value, Next resolve through the same embedded iterator (method-set resolution), Key never redefined, two-argument user functions receive (X.Key(), X.Value()) of one iterator X read after X's last Next. typed-nil: no possibly-nil pointer is converted to the iterator interface (nil interface = empty).",
    note="assumes iterators are not aliased by their wrapper and are dead after Next returned false",
    tech="static analysis: path constraints over SSA + method-set resolution paths on go/types"),
 
@@ -41,7 +41,7 @@ CLAIMS = {
    note="assumes reflect reports true offsets and hseq.Type values are produced by hseq (public struct: clients are an assumption); thorough repeats under GOARCH=386/arm64",
    tech="static analysis: SSA address-term normalisation, unsafe/field-writer censuses over all packages, type-argument consistency on go/types"),
  "C02": dict(cat="other", ref="DESIGN.md section 4, C02",
-   text="Construction census of the lens type, guard dominance and strength (type identity; container must be a struct) on every returning path of NewLens/NewReflector, loud lookups, dynamic *S assertion in Putt/Gett, pointer-strip taint into the offset recursion, interval of len(attr) at every attr[0:N]; 'reads and writes stay inside that field' through the address term of the four accessors and the offset-accumulation rules of the unfolding (shared with C01); positional hand-over of names / focus types by the ForProductN / ForSpectrumN / NewN families and exact first-match lookups (shared with C01 / C03). Known findings: D1 (pointer-embedded fields accepted) and D3 (16 reslice sites); D2 and D3b were repaired by fix: commits.",
+   text="Construction census of the lens type, guard dominance and strength (type identity; container must be a struct) on every returning path of NewLens/NewReflector, loud lookups, dynamic *S assertion in Putt/Gett, pointer-strip taint into the offset recursion, interval of len(attr) at every attr[0:N]; 'reads and writes stay inside that field' through the address term of the four accessors and the offset-accumulation rules of the unfolding (shared with C01); positional hand-over of names / focus types by the ForProductN / ForSpectrumN / NewN families and exact first-match lookups (shared with C01 / C03). Known findings: D1 (pointer-embedded fields accepted) and D3 (16 reslice sites); D2 and D3b were repaired by fix: commits. panic-propagates: no function of hseq/optics recovers a panic and returns normally with a non-nil recovered value; interface-vs-nil comparisons of a converted concrete pointer are evaluated as the language defines them (never equal).",
    note="panic messages and reflect's behaviour are not decided",
    tech="static analysis: who-may-construct census, dominance of guard edges on cut-point paths, interval analysis, taint of reflect .Elem() results"),
  "C03": dict(cat="other", ref="DESIGN.md section 4, C03",
@@ -54,7 +54,7 @@ CLAIMS = {
    note="assumes user functions terminate and do not touch the channels; Take's n >= 0; trusted: go/ssa, path engine, Go channel FIFO. Not decided: nothing is observed at run time.",
    tech="static analysis: cut-point path enumeration over SSA with event lists, branch polarities and infeasible-path pruning; interval analysis"),
  "C06": dict(cat="other", ref="DESIGN.md section 4, C06",
-   text="Pairing/typestate/ownership: single closer and exactly one close on every exit after the last send (or after wg.Wait with Done-after-last-send and Add = spawn count), every blocking operation classified (range over input, select with the stage's ctx.Done arm that exits, capacity-accounted send, wg.Wait), every loop cycle has a cancellation point and an exit, catch's false edge exits, no panic source, nothing delivered after an observed cancel (1 known finding: pipe.Fold). Termination/closure for every interleaving follows on paper.",
+   text="Pairing/typestate/ownership: single closer and exactly one close on every exit after the last send (or after wg.Wait with Done-after-last-send and Add = spawn count), every blocking operation classified (range over input, select with the stage's ctx.Done arm that exits, capacity-accounted send, wg.Wait), every loop cycle has a cancellation point and an exit, catch's false edge exits, no panic source, nothing delivered after an observed cancel (1 known finding: pipe.Fold). Termination/closure for every interleaving follows on paper. spawn-channels: no goroutine is started, on any path of its parent, with a channel variable it operates on still nil.",
    note="assumes inputs are eventually closed and user functions return; pipe.New is covered by C08; goroutine dumps are not taken",
    tech="static analysis: typestate/ownership rules over cut-point paths of every spawned goroutine (SSA), closed-world summaries of the catch role"),
  "C07": dict(cat="other", ref="DESIGN.md section 4, C07",
